@@ -5,6 +5,7 @@ package main
 import (
 	"fmt"
 	"go/token"
+	"go/types"
 	"strings"
 
 	"golang.org/x/tools/go/ssa"
@@ -285,4 +286,253 @@ func rtLineCol(a *aggregator, v *rtView) {
 	})
 	a.Decide(len(bad) == 0 && n >= 2, "R-linecol-order", construct, cfg, v.in.srcPos(f.Pos()),
 		"the line and column stored for offset i are computed from values defined before the newline test of iteration i", strings.Join(uniq(bad), "; "))
+}
+
+// R-adopt-condition (C05): in AST(), a token on the stack is adopted as a child
+// of the token being placed exactly when its span lies within that token's
+// span. The condition only compares four offsets, so it is decided over the
+// finite set of their orderings (all small valuations): equal spans and
+// strictly nested spans must be adopted, spans that end at or before the new
+// token's begin must not.
+func rtAdopt(a *aggregator, v *rtView) {
+	cfg := v.in.Name
+	if !v.in.Cfg.Bools["Ast"] {
+		return
+	}
+	f := v.in.method("tokens", "AST")
+	construct := "tokens.AST adopts exactly the tokens nested in the new token"
+	if f == nil {
+		a.Und("R-adopt-condition", construct, cfg, "", "method AST not found")
+		return
+	}
+	// the adoption body: the block that stores into a field named up (node.up = stack.node)
+	var body *ssa.BasicBlock
+	instrsOf(f, func(in ssa.Instruction) {
+		if st, ok := in.(*ssa.Store); ok {
+			if fa, ok := st.Addr.(*ssa.FieldAddr); ok {
+				if s := derefStruct(fa.X.Type()); s != nil && s.Field(fa.Field).Name() == "up" {
+					body = st.Block()
+				}
+			}
+		}
+	})
+	if body == nil {
+		a.Und("R-adopt-condition", construct, cfg, v.in.srcPos(f.Pos()), "the adoption step (node.up = …) was not found")
+		return
+	}
+	// loop header: the block that dominates body and is the target of body's back edge
+	var header *ssa.BasicBlock
+	for _, s := range body.Succs {
+		if s.Dominates(body) {
+			header = s
+		}
+	}
+	if header == nil {
+		a.Und("R-adopt-condition", construct, cfg, v.in.srcPos(f.Pos()), "the adoption loop was not found")
+		return
+	}
+	// classify leaves: field begin/end of the stacked node (reached through the stack element) or of the new token
+	var classify func(x ssa.Value, depth int) string
+	classify = func(x ssa.Value, depth int) string {
+		if depth > 8 {
+			return ""
+		}
+		switch y := x.(type) {
+		case *ssa.UnOp:
+			if y.Op == token.MUL {
+				return classify(y.X, depth+1)
+			}
+		case *ssa.FieldAddr:
+			s := derefStruct(y.X.Type())
+			if s == nil {
+				return ""
+			}
+			name := s.Field(y.Field).Name()
+			base := classify(y.X, depth+1)
+			if name == "begin" || name == "end" {
+				if base == "" {
+					base = "T"
+				}
+				return base + "." + name
+			}
+			if name == "node" && strings.Contains(y.X.Type().String(), "element") {
+				return "S"
+			}
+			return base
+		case *ssa.Field:
+			s, _ := y.X.Type().Underlying().(*types.Struct)
+			if s == nil {
+				return ""
+			}
+			name := s.Field(y.Field).Name()
+			base := classify(y.X, depth+1)
+			if name == "begin" || name == "end" {
+				if base == "" {
+					base = "T"
+				}
+				return base + "." + name
+			}
+			return base
+		case *ssa.Phi:
+			if strings.Contains(y.Type().String(), "element") {
+				return "S"
+			}
+		}
+		return ""
+	}
+	type val struct {
+		known bool
+		i     int
+		b     bool
+		isB   bool
+	}
+	var eval func(x ssa.Value, env map[string]int, depth int) val
+	eval = func(x ssa.Value, env map[string]int, depth int) val {
+		if depth > 10 {
+			return val{}
+		}
+		if c := classify(x, 0); c != "" {
+			if n, ok := env[c]; ok {
+				return val{known: true, i: n}
+			}
+		}
+		switch y := x.(type) {
+		case *ssa.Const:
+			if y.Value != nil {
+				if n, ok := constValue(types.TypeAndValue{Value: y.Value}); ok {
+					if i, ok := n.(int64); ok {
+						return val{known: true, i: int(i)}
+					}
+				}
+			}
+			if y.IsNil() {
+				return val{}
+			}
+		case *ssa.BinOp:
+			l, r := eval(y.X, env, depth+1), eval(y.Y, env, depth+1)
+			if !l.known || !r.known {
+				// stack != nil and the like: assume the stack is not empty
+				if y.Op == token.NEQ {
+					return val{known: true, isB: true, b: true}
+				}
+				if y.Op == token.EQL {
+					return val{known: true, isB: true, b: false}
+				}
+				return val{}
+			}
+			switch y.Op {
+			case token.ADD:
+				return val{known: true, i: l.i + r.i}
+			case token.SUB:
+				return val{known: true, i: l.i - r.i}
+			case token.LSS:
+				return val{known: true, isB: true, b: l.i < r.i}
+			case token.LEQ:
+				return val{known: true, isB: true, b: l.i <= r.i}
+			case token.GTR:
+				return val{known: true, isB: true, b: l.i > r.i}
+			case token.GEQ:
+				return val{known: true, isB: true, b: l.i >= r.i}
+			case token.EQL:
+				return val{known: true, isB: true, b: l.i == r.i}
+			case token.NEQ:
+				return val{known: true, isB: true, b: l.i != r.i}
+			}
+		case *ssa.Convert:
+			return eval(y.X, env, depth+1)
+		case *ssa.UnOp:
+			if y.Op == token.NOT {
+				r := eval(y.X, env, depth+1)
+				if r.known && r.isB {
+					r.b = !r.b
+					return r
+				}
+			}
+		}
+		return val{}
+	}
+	// blocks from which the adoption step is still reachable without going round the loop
+	canReach := map[*ssa.BasicBlock]bool{body: true}
+	for changed := true; changed; {
+		changed = false
+		for _, b := range f.Blocks {
+			if canReach[b] {
+				continue
+			}
+			for _, su := range b.Succs {
+				if canReach[su] && su != header {
+					canReach[b] = true
+					changed = true
+				}
+			}
+		}
+	}
+	adopts := func(env map[string]int) (bool, bool) {
+		b := header
+		for steps := 0; steps < 12; steps++ {
+			if b == body {
+				return true, true
+			}
+			if !canReach[b] {
+				return false, true // left the loop without adopting
+			}
+			if len(b.Instrs) == 0 {
+				return false, false
+			}
+			iff, ok := b.Instrs[len(b.Instrs)-1].(*ssa.If)
+			if !ok {
+				if len(b.Succs) == 1 {
+					b = b.Succs[0]
+					continue
+				}
+				return false, true
+			}
+			r := eval(iff.Cond, env, 0)
+			if !r.known || !r.isB {
+				return false, false
+			}
+			if r.b {
+				b = b.Succs[0]
+			} else {
+				b = b.Succs[1]
+			}
+			if !header.Dominates(b) || b == header {
+				return false, true
+			}
+		}
+		return false, false
+	}
+	var bad []string
+	n := 0
+	for bs := 0; bs < 4; bs++ {
+		for es := bs + 1; es < 5; es++ {
+			for bt := 0; bt < 4; bt++ {
+				for et := bt + 1; et < 5; et++ {
+					inside := bt <= bs && es <= et
+					before := es <= bt
+					if !inside && !before {
+						continue // not a possible stack/token pair in a post-order list
+					}
+					n++
+					got, ok := adopts(map[string]int{"S.begin": bs, "S.end": es, "T.begin": bt, "T.end": et})
+					if !ok {
+						a.Und("R-adopt-condition", construct, cfg, v.in.srcPos(f.Pos()), "the adoption condition is not a comparison of the four token offsets")
+						return
+					}
+					if got != inside {
+						what := "is not adopted although it lies within"
+						if got {
+							what = "is adopted although it lies before"
+						}
+						bad = append(bad, fmt.Sprintf("a stacked token [%d,%d) %s the new token [%d,%d)", bs, es, what, bt, et))
+					}
+				}
+			}
+		}
+	}
+	if len(bad) > 4 {
+		bad = append(bad[:4], fmt.Sprintf("(+%d more)", len(bad)-4))
+	}
+	a.Decide(len(bad) == 0, "R-adopt-condition", construct, cfg, v.in.srcPos(f.Pos()),
+		fmt.Sprintf("%d orderings of (stacked begin/end, new begin/end) that can occur in a post-order list: adopted exactly when nested (equal spans included)", n), strings.Join(bad, "; "))
 }
